@@ -28,6 +28,10 @@ const POOL: &[&str] = &[
     "@@advice$tag=a",
     "adv$important,tag=b",
     "foo*bar$tag=b",
+    // plain tagged rules with the pattern of the tagged important ones (bucket neighbours in any
+    // container that holds both kinds)
+    "adv$tag=b",
+    "adv$tag=c",
 ];
 const TAGS: [&str; 3] = ["a", "b", "c"];
 
@@ -59,14 +63,17 @@ fn battery() -> Vec<(String, &'static str, &'static str)> {
     v
 }
 
-type Answers = Vec<(Verdict, Option<BTreeSet<String>>)>;
+/// per query: the ordinary verdict, the CSP set, and the two restricted forms of the check (a rule
+/// matched earlier: only importants and exceptions are consulted; exceptions forced)
+type Answers = Vec<(Verdict, Option<BTreeSet<String>>, [String; 2])>;
 
 fn answers(e: &Engine, bat: &[(String, &'static str, &'static str)]) -> Result<Answers, String> {
     catch(|| {
         bat.iter()
             .map(|(u, s, t)| {
                 let r = adblock::request::Request::new(u, s, t).unwrap();
-                (Verdict::of(&e.check_network_request(&r)), csp_set(&e.get_csp_directives(&r)))
+                let sub = |a: bool, b: bool| Verdict::of(&e.check_network_request_subset(&r, a, b)).short();
+                (Verdict::of(&e.check_network_request(&r)), csp_set(&e.get_csp_directives(&r)), [sub(true, false), sub(false, true)])
             })
             .collect()
     })
@@ -380,7 +387,7 @@ fn check(ctx: &Ctx) -> i32 {
     }
     ctx.finish(
         "model_checking",
-        "BX: all 4096 subsets of the 12-rule pool x optimise on/off x all 8 tag sets x a 30-query battery (network + CSP), compared with an engine built from the tag-stripped sublist; HX: on 4 representative lists every operation sequence of length <= d over 28 operations (use/enable/disable of every subset of {a,b,c}; deserialize of the same list serialised under every subset of {a,b}), each on a fresh real engine; tag_exists checked against the set model after every step and the battery after the last; non-trivial = a tagged rule is present / the final tag set is non-empty; states = engines built + model states, transitions = operations and queries executed",
+        "BX: all 16384 subsets of the 14-rule pool x optimise on/off x all 8 tag sets x a 30-query battery (network + CSP), compared with an engine built from the tag-stripped sublist; HX: on 4 representative lists every operation sequence of length <= d over 28 operations (use/enable/disable of every subset of {a,b,c}; deserialize of the same list serialised under every subset of {a,b}), each on a fresh real engine; tag_exists checked against the set model after every step and the battery after the last; non-trivial = a tagged rule is present / the final tag set is non-empty; states = engines built + model states, transitions = operations and queries executed",
         &["the tag-stripped reference engine is built by the same crate (differential); tag combined with redirect / removeparam / generichide is outside the property's list of categories and not generated"],
     )
 }
